@@ -36,7 +36,8 @@ META = dict(
               '; per-unit scan of the f2py entry routines for assigned persistent loc'
               'als and for the dominance of the solve call over the per-angle calls; '
               'symbolic 2 x 2 matrix algebra (modulo cos^2 + sin^2 = 1) of the sphere'
-              ' limit through _run_tmat / raw_scat_matrs / raw_fields',
+              ' limit through _run_tmat / raw_scat_matrs / raw_fields'
+              "; sibling cross-check of the constructors' size guards against Sphere's, size guard of the hand-off; acceptance table evaluated with the uniformity tests as atoms (layered spheres refused by can_handle and by the hand-off)",
     level_text='Exhaustive over the program units reachable from the f2py entry '
                'points (tmatrix_f: ampld; mie_f: every routine the wrappers '
                'call): every STOP / EXIT reachable from Python is enumerated and '
